@@ -1,3 +1,67 @@
-import GV.Orch.Spec
+/-
+  C14 — Stop tag: once set, no further rule starts.
+-/
+import GV.Orch.AllConform
+import GV.Props.C04
 namespace GV.Props.C14
+open GV.Orch GV.Generated.Orch
+
+theorem C14_ExecuteWithStopTagDirect : Conforms ExecuteWithStopTagDirect .ExecuteWithStopTagDirect :=
+  All.conf_ExecuteWithStopTagDirect
+theorem C14_ExecuteMixModelWithStopTagDirect :
+    Conforms ExecuteMixModelWithStopTagDirect .ExecuteMixModelWithStopTagDirect :=
+  All.conf_ExecuteMixModelWithStopTagDirect
+theorem C14_SelectedAndStopTag :
+    Conforms ExecuteSelectedRulesWithControlAndStopTag .ExecuteSelectedRulesWithControlAndStopTag :=
+  All.conf_ExecuteSelectedRulesWithControlAndStopTag
+theorem C14_SelectedAndStopTagAsGiven :
+    Conforms ExecuteSelectedRulesWithControlAndStopTagAsGivenSortedName
+      .ExecuteSelectedRulesWithControlAndStopTagAsGivenSortedName :=
+  All.conf_ExecuteSelectedRulesWithControlAndStopTagAsGivenSortedName
+
+theorem takeThrough_congr (p q : α → Bool) (l : List α) (h : ∀ x ∈ l, p x = q x) :
+    takeThrough p l = takeThrough q l := by
+  induction l with
+  | nil => rfl
+  | cons a l ih =>
+    have ha := h a (by simp)
+    simp only [takeThrough, ha]
+    split
+    · rfl
+    · rw [ih (fun x hx => h x (by simp [hx]))]
+
+/-- If the tag is never set the sorted variants behave exactly like the variants without a tag. -/
+theorem never_set_sorted (cfg : Cfg) (order : List Rule) (b : Bool) (h : ∀ r ∈ order, stops cfg r = false) :
+    sortFamily cfg order b true = sortFamily cfg order b false := by
+  unfold sortFamily
+  congr 1
+  apply takeThrough_congr
+  intro r hr
+  simp [seqStop, h r hr]
+
+theorem never_set_mix (cfg : Cfg) (order : List Rule) (h : ∀ r ∈ order, stops cfg r = false) :
+    mixFamily cfg order true = mixFamily cfg order false := by
+  cases order with
+  | nil => rfl
+  | cons f rest => simp [mixFamily, h f (by simp)]
+
+/-- Sorted variants: the rule that sets the tag completes and is the last one to run. -/
+theorem stop_is_last (cfg : Cfg) (order : List Rule) (b : Bool) (pre post : List Rule) (r : Rule)
+    (ho : order = pre ++ r :: post) (hpre : ∀ x ∈ pre, seqStop cfg (!b) true x = false)
+    (hr : stops cfg r = true) :
+    (sortFamily cfg order b true).flatten = pre ++ [r] := by
+  subst ho
+  simp only [sortFamily, singletons_flatten]
+  induction pre with
+  | nil => simp [takeThrough, seqStop, hr]
+  | cons a pre ih =>
+    have ha := hpre a (by simp)
+    simp only [List.cons_append, takeThrough, ha]
+    simp
+    exact ih (fun x hx => hpre x (by simp [hx]))
+
+/-- Mix variant: none of the remaining rules runs if the first rule set the tag. -/
+theorem mix_stop (cfg : Cfg) (f : Rule) (rest : List Rule) (h : stops cfg f = true) :
+    mixFamily cfg (f :: rest) true = [[f]] := by simp [mixFamily, h]
+
 end GV.Props.C14
